@@ -1,8 +1,9 @@
 ---------------------------- MODULE MC_Transport ----------------------------
 (* Scaled decision table for the batcher (engine E3): MAX = 48 units, the    *)
 (* envelope cap is 6 units (32 MiB : 4 MiB), queues of up to QLEN            *)
-(* transactions of four size classes. TLC shows BatchFits needs              *)
-(* accounted >= signed; the cases are also the queue shapes the harness      *)
+(* transactions of four size classes. With the signed length accounted every *)
+(* admitted batch fits; accounting the unsigned payload instead violates     *)
+(* BatchFits (witness). The cases are also the queue shapes the harness      *)
 (* concretizes (engine E1).                                                  *)
 EXTENDS Transport, Json
 
@@ -31,6 +32,7 @@ Monotone == LET idx == Batch(q) IN \A i \in DOMAIN idx : i > 1 => idx[i - 1] < i
 
 \* shapes for the harness: only the classes it can concretize with real transactions
 Shape == [i \in DOMAIN q |-> q[i].c]
+\* "cut": the batcher refuses at least one transaction of this queue (the running sum reaches 2/3 MAX)
 EmitCase == (\A i \in DOMAIN q : q[i].c \in {"t", "h"}) =>
-              PrintT("CASE " \o ToJson([shape |-> Shape, over |-> ~BatchFits(q), n |-> Len(q)]))
+              PrintT("CASE " \o ToJson([shape |-> Shape, cut |-> Len(Batch(q)) < Len(q), n |-> Len(q)]))
 =============================================================================
